@@ -35,6 +35,15 @@ package libdrv
 //                      {cache file, state dir, containers dir} x {symlink, wrong type, g+w, o+w,
 //                      g+w+o+w} must be refused by NewCache; correct set-ups must be accepted
 //
+// The child pins its goroutine to one thread (runtime.LockOSThread), so strace's per-thread when=N is
+// the N-th call of the history: sweeps are reproducible and complete (every openat/write/close/
+// renameat of every save, every oplog write between ops). Injection is restricted with -P to
+// <state>/cache, <state>/cache.saving (and the oplog for kills); the twin's files are never hit.
+// Informational counters (never violations): info_temp_symlink_followed (cache.saving is not among
+// the checked objects; Save() writes through a symbolic link planted there), info_load_error_swallowed
+// (an EACCES on reading the cache file makes Load() start empty without an error).
+// harness_* counters flag runs the driver discarded because its own machinery misbehaved.
+//
 // N (ctx.N) = number of round-trip caches. Sweep sizes derive from the tier:
 //   quick:    1 child history (K=10 ops), truncated-temp on 3 snapshot pairs
 //   thorough: 8 child histories (K=8 ops), truncated-temp on 20 snapshot pairs
@@ -1045,7 +1054,7 @@ func c10Mutate(c cache.Cache, op c10Op) (kind string, explicit bool, desc string
 	pods, ctrs := c10SortedPodIDs(c), c10SortedCtrIDs(c)
 	kind = op.Kind
 	if kind == "" {
-		kind = sysgen.Pick(r, []string{"pod", "pod", "ctr", "ctr", "ctr", "delctr", "delpod", "policy", "reset", "mutate", "mutate", "mutate", "mutate", "mutate", "mutate"})
+		kind = sysgen.Pick(r, []string{"pod", "pod", "ctr", "ctr", "ctr", "delctr", "delpod", "policy", "policy", "reset", "mutate", "mutate", "mutate", "mutate"})
 		if kind == "reset" && !r.Chance(1, 3) {
 			kind = "mutate"
 		}
@@ -1236,6 +1245,9 @@ func c10NewEnv(ctx *Ctx) (*c10Env, error) {
 }
 
 func runC10(ctx *Ctx) {
+	if runtime.GOMAXPROCS(0) > 2 {
+		runtime.GOMAXPROCS(2) // the work is sequential; fewer Ps = less scheduler churn on a busy host
+	}
 	env, err := c10NewEnv(ctx)
 	if err != nil {
 		ctx.Violate("setup", "setup", nil, "%v", err)
@@ -1820,6 +1832,7 @@ func runC10Child(ctx *Ctx) {
 	// every traced call of this history is made by this goroutine: pinning it to its thread makes
 	// strace's per-thread `when=N` count the N-th call of the history, reproducibly
 	runtime.LockOSThread()
+	runtime.GOMAXPROCS(2) // fewer threads for strace -f to follow
 	dir, err := filepath.Abs(ctx.Work)
 	if err != nil {
 		return
@@ -2298,9 +2311,15 @@ func (e *c10Env) killOne(seed uint64, k int, call string, when int) bool {
 		ctx.Count("kills_in_op_elsewhere")
 	}
 	ctx.Count("kills_in_opkind_" + opKind)
+	if inflight != nil && !finished && inflight.Pre != inflight.Post {
+		ctx.Count("kill_points_in_op_changing_state") // previous and new snapshot are distinguishable
+	}
 	ctx.See(fmt.Sprintf("kill:%s:%s:%s:%d", opKind, call, class, when))
 	loadErr, hash, ok := e.checkState(run.state, accept)
 	ctx.Count("loads_after_kill")
+	if ctx.Replay != "" {
+		fmt.Printf("replay: child killed at %s #%d (file class %s) during op %d (%s), op finished=%v; loaded=%s loadErr=%v accepted=%v\n", call, when, class, opIdx, opKind, finished, hash, loadErr, accept)
+	}
 	sig := fmt.Sprintf("%s:%s:%s", call, class, opKind)
 	switch {
 	case loadErr != nil:
@@ -2399,6 +2418,9 @@ func (e *c10Env) errorOne(seed uint64, k int, call, errno string, when int) {
 	}
 	loadErr, hash, ok := e.checkState(run.state, accept)
 	ctx.Count("loads_after_error")
+	if ctx.Replay != "" {
+		fmt.Printf("replay: %s failed with %s [%s]; failed-save op=%d (%s), Save() error reported=%v; loaded=%s loadErr=%v accepted=%v\n", call, errno, strings.TrimSpace(line), faultOp, opKind, errRec != nil, hash, loadErr, accept)
+	}
 	opIdx := -1
 	if inflight != nil {
 		opIdx = inflight.I
